@@ -122,8 +122,18 @@ func c02Known(st influxql.Statement, printed, why string) string {
 
 func checkC02(c *Ctx) (string, bool, []string) {
 	r := c.R
-	rule := "every statement accepted in the C01 workload (all clause subsets of all 44 kinds, random payloads, 50% with names that need quoting: spaces, dots, quotes, backslashes, newlines, leading digits, non-ASCII, keywords in several casings) is printed and re-parsed; plus sweeps of fractional durations in every duration slot, floats and exponent forms in literals and fill(), negated operands under every operator, regexes with slashes, and multi-statement queries. Non-trivial = statement has an optional clause, quoted name or operator; distinct by text."
+	rule := "every statement accepted in the C01 workload (all clause subsets of all 44 kinds, random payloads, 50% with names that need quoting: spaces, dots, quotes, backslashes, newlines, leading digits, non-ASCII, keywords in several casings) is printed and re-parsed; plus sweeps of fractional durations in every duration slot, floats and exponent forms in literals and fill(), negated operands under every operator, regexes with slashes, stand-alone expressions through ParseExpr, and multi-statement queries. Non-trivial = statement has an optional clause, quoted name or operator; distinct by text."
 	assume := []string{"password text is exempt (redacted on purpose) and is put back before re-parsing", "structural equality = astx canonical dump"}
+	if c.Replay != nil && replayStr(c, "sub") == "expr" {
+		text := replayStr(c, "input")
+		e, err := influxql.ParseExpr(text)
+		if err == nil {
+			if e2, err2 := influxql.ParseExpr(e.String()); err2 != nil || dumpOf(e) != dumpOf(e2) {
+				r.Violation("expression-roundtrip", map[string]interface{}{"input": text, "why": fmt.Sprint(err2)})
+			}
+		}
+		return rule, false, assume
+	}
 	if c.Replay != nil {
 		text := replayStr(c, "input")
 		c02One(c, text, func(why string) map[string]interface{} { return map[string]interface{}{"input": text, "why": why} }, map[string]int64{})
@@ -219,6 +229,48 @@ func checkC02(c *Ctx) (string, bool, []string) {
 		local["sweep"]++
 		r.MergeCounts(local)
 	})
+	// stand-alone expressions: ParseExpr(e.String()) must give e back
+	nexpr := c.N(30000, 800000)
+	mon.Parallel(nexpr, c.Workers, func(i int) {
+		local := map[string]int64{}
+		rg := mon.NewRng(c.Seed, "c02.expr", i)
+		g := gen.New(rg, gen.Opts{Hostile: i%2 == 0, MaxDepth: 2 + i%3})
+		ctx := gen.CtxCond
+		if i%3 == 0 {
+			ctx = gen.CtxField
+		}
+		g.Emit(g.Tree(ctx, g.Opt.MaxDepth))
+		text, _ := gen.Render(g.B.Toks, gen.Layout{Spaced: true})
+		var e, e2 influxql.Expr
+		var err, err2 error
+		var printed string
+		p, pv, stk := mon.Try(func() {
+			e, err = influxql.ParseExpr(text)
+			if err == nil {
+				printed = e.String()
+				e2, err2 = influxql.ParseExpr(printed)
+			}
+		})
+		if p {
+			r.Violation("panic-in-expression-roundtrip", map[string]interface{}{"sub": "expr", "input": text, "why": fmt.Sprint(pv), "stack": stk})
+			return
+		}
+		if err != nil {
+			return
+		}
+		r.Eval(1)
+		r.DistinctStr("expr|" + text)
+		if err2 != nil || dumpOf(e) != dumpOf(e2) {
+			why := fmt.Sprintf("printed %q is rejected: %v", trunc(printed, 300), err2)
+			if err2 == nil {
+				why = fmt.Sprintf("printed %q re-parses differently: %s", trunc(printed, 300), astx.FirstDiff(dumpOf(e), dumpOf(e2)))
+			}
+			r.Violation("expression-roundtrip", map[string]interface{}{"sub": "expr", "input": text, "why": why})
+			return
+		}
+		local["expr-roundtrip-ok"]++
+		r.MergeCounts(local)
+	})
 	// multi-statement queries: Query.String() joins with ";\n"
 	nq := c.N(2000, 50000)
 	mon.Parallel(nq, c.Workers, func(i int) {
@@ -266,6 +318,6 @@ func checkC02(c *Ctx) (string, bool, []string) {
 	for _, kd := range gen.Kinds {
 		r.Require(r.Counter("kind."+kd.Name) > 0, "statement kind "+kd.Name+" never printed")
 	}
-	r.Require(r.Counter("roundtrip-ok") > 0 && r.Counter("query-roundtrip-ok") > 0, "no round trip succeeded")
+	r.Require(r.Counter("roundtrip-ok") > 0 && r.Counter("query-roundtrip-ok") > 0 && r.Counter("expr-roundtrip-ok") > 0, "no round trip succeeded")
 	return rule, false, assume
 }
